@@ -18,7 +18,7 @@ var argNames = []string{"x", "y", "z", "first", "arg", "ar", "agr"}
 var enumValueNames = []string{"RED", "GREEN", "BLUE", "A", "B", "RAD", "GREN"}
 
 type schemaGen struct {
-	inputBias bool // argument types prefer input objects (and a oneOf input always exists)
+	inputBias  bool // argument types prefer input objects (and a oneOf input always exists)
 	t          *rapid.T
 	doc        *ref.SchemaDoc
 	order      []TopItem
